@@ -292,8 +292,13 @@ def gen_C11(rnd, n, tier):
                 if x[0] in ("paren", "not"): return (x[0], retext(x[1]))
                 return (x[0], retext(x[1]), retext(x[2]))
             c = retext(c)
-        form = rnd.choice(["if", "while", "do", "switch"])
-        if form == "if": body = [("if", [(c, [("cmd", "yes", "yes")])], [("cmd", "no", "no")]), ("cmd", "after", "after")]
+        form = rnd.choice(["if", "while", "do", "switch", "elifsame"])
+        if form == "elifsame":
+            k = rnd.randint(2, 4); cmdsrc, cmdasm = "random(%d)" % k, "random %d" % k
+            a1 = ("leaf", ("auto", cmdsrc, cmdasm, "VAR_RESULT", "op", "==", 0)); a2 = ("leaf", ("auto", cmdsrc, cmdasm, "VAR_RESULT", "op", rnd.choice(["==", "!=", ">"]), 1))
+            c = ("and", a1, a2)
+            body = [("if", [(a1, [("cmd", "jackpot", "jackpot")]), (a2, [("cmd", "consolation", "consolation")])], [("cmd", "nothing", "nothing")]), ("cmd", "after", "after")]
+        elif form == "if": body = [("if", [(c, [("cmd", "yes", "yes")])], [("cmd", "no", "no")]), ("cmd", "after", "after")]
         elif form == "while" and i % 3 == 1:
             # a condition-less loop whose exit test is an if with an AutoVar condition around a lone break
             body = [("while", None, [("if", [(c, [("break",)])], None), ("cmd", "body", "body")]), ("cmd", "after", "after")]
